@@ -14,7 +14,7 @@ Section Detach.
   Hypothesis Hf : find sh n = Some q.
 
   Let sh1 := remove_sh sh n.
-  Let p := q_parent q.
+  Let par := q_parent q.
 
   Lemma detach_names : NoDup (names sh1) /\ (forall x, In x sh1 -> q_name x <> 0) /\ ValsOk sh1.
   Proof.
@@ -25,7 +25,7 @@ Section Detach.
   Qed.
 
   (* the chain of the parent survives *)
-  Lemma detach_parent_chain : exists lp, reaches sh p lp /\ ~ In n lp /\ reaches sh1 p lp.
+  Lemma detach_parent_chain : exists lp, reaches sh par lp /\ ~ In n lp /\ reaches sh1 par lp.
   Proof.
     destruct (so_reach _ Hshape q (find_in _ _ _ Hf)) as [l Hl].
     rewrite (find_name _ _ _ Hf) in Hl.
@@ -35,11 +35,11 @@ Section Detach.
     exists t. refine (conj Hr (conj Hnt _)). apply reaches_remove; assumption.
   Qed.
 
-  Lemma detach_parent_find : p <> 0 -> exists qp, find sh p = Some qp /\ find sh1 p = Some qp /\ p <> n.
+  Lemma detach_parent_find : par <> 0 -> exists qp, find sh par = Some qp /\ find sh1 par = Some qp /\ par <> n.
   Proof.
     intros Hp0. destruct detach_parent_chain as (lp & Hr & Hn & _).
     destruct (reaches_inv _ _ _ Hr Hp0) as (qp & t & Hfp & -> & _).
-    assert (Hpn : p <> n) by (intros E; apply Hn; left; exact E).
+    assert (Hpn : par <> n) by (intros E; apply Hn; left; exact E).
     exists qp. refine (conj Hfp (conj _ Hpn)). unfold sh1. rewrite find_remove_other; assumption.
   Qed.
 
@@ -53,14 +53,14 @@ Section Detach.
     Let R1 := fupd R n r0.
     Let d := vsub vzero (lim q (R n)).
     Let dnp := vsub vzero (r_np (R n)).
-    Let R2 := cwalk_req sh1 R1 p d dnp false.
+    Let R2 := cwalk_req sh1 R1 par d dnp false.
 
     Lemma detach_req :
       PosR sh1 R2 /\
       (forall q0, In q0 sh1 -> okB R2 q0) /\
       (forall q0, In q0 sh1 -> okA sh1 R2 q0 /\ okN sh1 R2 q0) /\
       (forall m, m <> n -> r_sreq (R2 m) = r_sreq (R m) /\ r_snp (R2 m) = r_snp (R m)) /\
-      (forall lp, reaches sh p lp -> forall m, m <> n -> ~ In m lp -> R2 m = R m).
+      (forall lp, reaches sh par lp -> forall m, m <> n -> ~ In m lp -> R2 m = R m).
     Proof.
       destruct detach_names as (Hnd1 & Hnz1 & Hvals1).
       pose proof (so_nodup _ Hshape) as Hnd.
@@ -70,63 +70,63 @@ Section Detach.
       assert (Hpos1 : PosR sh1 R1).
       { intros x Hx. destruct (Hin1 x Hx) as [Hx' Hne]. rewrite (HR1 _ Hne). apply Hpos. exact Hx'. }
       (* sums over the remaining quotas *)
-      assert (Hsl : forall m, sumc sh1 (limR R1) m = if p =? m then vsub (sumc sh (limR R) m) (lim q (R n)) else sumc sh (limR R) m).
+      assert (Hsl : forall m, sumc sh1 (limR R1) m = if par =? m then vsub (sumc sh (limR R) m) (lim q (R n)) else sumc sh (limR R) m).
       { intros m. rewrite (sumc_ext sh1 (limR R1) (limR R)).
         - unfold sh1. rewrite (sumc_remove sh (limR R) n q m Hnd Hf). unfold limR at 2. rewrite Hqn. reflexivity.
         - intros c Hc _. unfold limR. rewrite HR1; [reflexivity | apply Hin1; exact Hc]. }
-      assert (Hsn : forall m, sumc sh1 (npR R1) m = if p =? m then vsub (sumc sh (npR R) m) (r_np (R n)) else sumc sh (npR R) m).
+      assert (Hsn : forall m, sumc sh1 (npR R1) m = if par =? m then vsub (sumc sh (npR R) m) (r_np (R n)) else sumc sh (npR R) m).
       { intros m. rewrite (sumc_ext sh1 (npR R1) (npR R)).
         - unfold sh1. rewrite (sumc_remove sh (npR R) n q m Hnd Hf). unfold npR at 2. rewrite Hqn. reflexivity.
         - intros c Hc _. unfold npR. rewrite HR1; [reflexivity | apply Hin1; exact Hc]. }
-      assert (HA1 : forall q0, In q0 sh1 -> q_name q0 <> p -> okA sh1 R1 q0).
+      assert (HA1 : forall q0, In q0 sh1 -> q_name q0 <> par -> okA sh1 R1 q0).
       { intros q0 Hq0 Hne. destruct (Hin1 q0 Hq0) as [Hq0' Hnn]. unfold okA. rewrite Hsl.
         apply Z.eqb_neq in Hne. rewrite Z.eqb_sym in Hne. rewrite Hne, (HR1 _ Hnn). apply HA; assumption. }
-      assert (HN1 : forall q0, In q0 sh1 -> q_name q0 <> p -> okN sh1 R1 q0).
+      assert (HN1 : forall q0, In q0 sh1 -> q_name q0 <> par -> okN sh1 R1 q0).
       { intros q0 Hq0 Hne. destruct (Hin1 q0 Hq0) as [Hq0' Hnn]. unfold okN. rewrite Hsn.
         apply Z.eqb_neq in Hne. rewrite Z.eqb_sym in Hne. rewrite Hne, (HR1 _ Hnn). apply HN; assumption. }
       assert (HB1 : forall q0, In q0 sh1 -> okB R1 q0).
       { intros q0 Hq0. destruct (Hin1 q0 Hq0) as [Hq0' Hnn]. unfold okB. rewrite (HR1 _ Hnn). apply HB; assumption. }
-      destruct (Z.eq_dec p 0) as [Hp0|Hp0].
+      destruct (Z.eq_dec par 0) as [Hp0|Hp0].
       - (* top-level quota: only the (unmodelled) root is above *)
         assert (E : R2 = R1) by (unfold R2; rewrite Hp0; apply cwalk_req_root; exact Hnz1).
         rewrite E. refine (conj Hpos1 (conj HB1 (conj _ (conj _ _)))).
-        + intros q0 Hq0. assert (q_name q0 <> p) by (rewrite Hp0; apply Hnz1; exact Hq0). auto.
+        + intros q0 Hq0. assert (q_name q0 <> par) by (rewrite Hp0; apply Hnz1; exact Hq0). auto.
         + intros m Hm. rewrite (HR1 _ Hm). auto.
         + intros lp _ m Hm _. apply HR1. exact Hm.
       - destruct (detach_parent_find Hp0) as (qp & Hfp & Hfp1 & Hpn).
         destruct detach_parent_chain as (lp & Hrp & Hnlp & Hrp1).
         assert (Hqpin : In qp sh) by (eapply find_in; eauto).
-        assert (Hqpn : q_name qp = p) by (eapply find_name; eauto).
+        assert (Hqpn : q_name qp = par) by (eapply find_name; eauto).
         pose proof (HA qp Hqpin ltac:(rewrite Hqpn; exact Hpn)) as HAp. unfold okA in HAp. rewrite Hqpn in HAp.
         pose proof (HN qp Hqpin ltac:(rewrite Hqpn; exact Hpn)) as HNp. unfold okN in HNp. rewrite Hqpn in HNp.
-        pose proof (Hsl p) as Hslp. rewrite Z.eqb_refl in Hslp.
-        pose proof (Hsn p) as Hsnp. rewrite Z.eqb_refl in Hsnp.
-        assert (HS1l : vnonneg (sumc sh1 (limR R1) p)) by (apply sumc_nonneg; apply limR_nonneg; assumption).
-        assert (HS1n : vnonneg (sumc sh1 (npR R1) p)) by (apply sumc_nonneg; apply (npR_nonneg sh1); assumption).
-        assert (Hposp : nonneg_r (R p) = true) by (rewrite <- Hqpn; apply Hpos; exact Hqpin).
+        pose proof (Hsl par) as Hslp. rewrite Z.eqb_refl in Hslp.
+        pose proof (Hsn par) as Hsnp. rewrite Z.eqb_refl in Hsnp.
+        assert (HS1l : vnonneg (sumc sh1 (limR R1) par)) by (apply sumc_nonneg; apply limR_nonneg; assumption).
+        assert (HS1n : vnonneg (sumc sh1 (npR R1) par)) by (apply sumc_nonneg; apply (npR_nonneg sh1); assumption).
+        assert (Hposp : nonneg_r (R par) = true) by (rewrite <- Hqpn; apply Hpos; exact Hqpin).
         apply nonneg_r_iff in Hposp. destruct Hposp as (_ & _ & Hps & _ & Hpsn).
         assert (Hqp1 : In qp sh1) by (eapply find_in; eauto).
-        destruct (cwalk_req_ind sh1 Hnd1 Hnz1 Hvals1 p lp qp R1 d dnp false Hrp1 Hfp1 Hpos1 (HB1 qp Hqp1))
+        destruct (cwalk_req_ind sh1 Hnd1 Hnz1 Hvals1 par lp qp R1 d dnp false Hrp1 Hfp1 Hpos1 (HB1 qp Hqp1))
           as (H1 & H2 & H3 & H4 & H5 & H6 & H7 & H8 & H9).
         { intros q0 Hq0 Hin. apply HN1; [exact Hq0|].
           destruct (reaches_head _ _ _ Hrp1 Hp0) as [t Ht]. subst lp. cbn [tl_ok] in Hin.
           pose proof (reaches_nodup _ _ _ Hrp1) as Hd. inversion Hd; subst. intros E. rewrite E in Hin. contradiction. }
         { rewrite (HR1 _ Hpn), HAp. unfold d. rewrite Hslp in HS1l.
-          revert HS1l Hps. generalize (r_sreq (R p)) (sumc sh (limR R) p) (lim q (R n)). intros. vlia. }
+          revert HS1l Hps. generalize (r_sreq (R par)) (sumc sh (limR R) par) (lim q (R n)). clear. intros. vlia. }
         { rewrite (HR1 _ Hpn), HNp. unfold dnp. rewrite Hsnp in HS1n.
-          revert HS1n Hpsn. generalize (r_snp (R p)) (sumc sh (npR R) p) (r_np (R n)). intros. vlia. }
+          revert HS1n Hpsn. generalize (r_snp (R par)) (sumc sh (npR R) par) (r_np (R n)). clear. intros. vlia. }
         { discriminate. }
         fold R2 in H1, H2, H3, H4, H5, H6, H7, H8, H9.
         refine (conj H1 (conj _ (conj _ (conj _ _)))).
         + intros q0 Hq0. apply H2; [exact Hq0 | apply HB1; exact Hq0].
-        + intros q0 Hq0. destruct (Z.eq_dec (q_name q0) p) as [E|E].
+        + intros q0 Hq0. destruct (Z.eq_dec (q_name q0) par) as [E|E].
           * assert (q0 = qp) by (rewrite <- E in Hfp1; rewrite (in_find _ _ Hnd1 Hq0) in Hfp1; congruence). subst q0.
             unfold okA, okN. rewrite Hqpn, H5, H6, H7. cbn [r_creq r_sreq r_np r_snp].
             rewrite (HR1 _ Hpn), Hslp, Hsnp, HAp, HNp. unfold d, dnp. split.
-            -- generalize (r_sreq (R p)) (sumc sh (limR R) p) (lim q (R n)). intros. vlia.
-            -- generalize (r_snp (R p)) (sumc sh (npR R) p) (r_np (R n)). intros. vlia.
+            -- generalize (r_sreq (R par)) (sumc sh (limR R) par) (lim q (R n)). clear. intros. vlia.
+            -- generalize (r_snp (R par)) (sumc sh (npR R) par) (r_np (R n)). clear. intros. vlia.
           * split; [apply H3 | apply H4]; auto.
-        + intros m Hm. destruct (Z.eq_dec m p) as [->|E].
+        + intros m Hm. destruct (Z.eq_dec m par) as [->|E].
           * rewrite H5. cbn [r_sreq r_snp]. rewrite (HR1 _ Hpn). auto.
           * destruct (H8 m E) as [E1 E2]. rewrite E1, E2, (HR1 _ Hm). auto.
         + intros lp' Hlp' m Hm Hnin. rewrite (reaches_fun _ _ _ Hlp' _ Hrp) in Hnin.
@@ -143,13 +143,13 @@ Section Detach.
     Let U1 := fupd U n u0.
     Let d := vsub vzero (u_used (U n)).
     Let dnp := vsub vzero (u_np (U n)).
-    Let U2 := cwalk_used sh1 U1 p d dnp false.
+    Let U2 := cwalk_used sh1 U1 par d dnp false.
 
     Lemma detach_used :
       PosU sh1 U2 /\
       (forall q0, In q0 sh1 -> okU sh1 U2 q0 /\ okUN sh1 U2 q0) /\
       (forall m, m <> n -> u_sused (U2 m) = u_sused (U m) /\ u_snp (U2 m) = u_snp (U m)) /\
-      (forall lp, reaches sh p lp -> forall m, m <> n -> ~ In m lp -> U2 m = U m).
+      (forall lp, reaches sh par lp -> forall m, m <> n -> ~ In m lp -> U2 m = U m).
     Proof.
       destruct detach_names as (Hnd1 & Hnz1 & Hvals1).
       pose proof (so_nodup _ Hshape) as Hnd.
@@ -158,59 +158,59 @@ Section Detach.
       assert (Hin1 : forall x, In x sh1 -> In x sh /\ q_name x <> n) by (intros x Hx; apply in_remove in Hx; exact Hx).
       assert (Hpos1 : PosU sh1 U1).
       { intros x Hx. destruct (Hin1 x Hx) as [Hx' Hne]. rewrite (HU1 _ Hne). apply Hpos. exact Hx'. }
-      assert (Hsl : forall m, sumc sh1 (usedU U1) m = if p =? m then vsub (sumc sh (usedU U) m) (u_used (U n)) else sumc sh (usedU U) m).
+      assert (Hsl : forall m, sumc sh1 (usedU U1) m = if par =? m then vsub (sumc sh (usedU U) m) (u_used (U n)) else sumc sh (usedU U) m).
       { intros m. rewrite (sumc_ext sh1 (usedU U1) (usedU U)).
         - unfold sh1. rewrite (sumc_remove sh (usedU U) n q m Hnd Hf). unfold usedU at 2. rewrite Hqn. reflexivity.
         - intros c Hc _. unfold usedU. rewrite HU1; [reflexivity | apply Hin1; exact Hc]. }
-      assert (Hsn : forall m, sumc sh1 (unpU U1) m = if p =? m then vsub (sumc sh (unpU U) m) (u_np (U n)) else sumc sh (unpU U) m).
+      assert (Hsn : forall m, sumc sh1 (unpU U1) m = if par =? m then vsub (sumc sh (unpU U) m) (u_np (U n)) else sumc sh (unpU U) m).
       { intros m. rewrite (sumc_ext sh1 (unpU U1) (unpU U)).
         - unfold sh1. rewrite (sumc_remove sh (unpU U) n q m Hnd Hf). unfold unpU at 2. rewrite Hqn. reflexivity.
         - intros c Hc _. unfold unpU. rewrite HU1; [reflexivity | apply Hin1; exact Hc]. }
-      assert (HUa : forall q0, In q0 sh1 -> q_name q0 <> p -> okU sh1 U1 q0).
+      assert (HUa : forall q0, In q0 sh1 -> q_name q0 <> par -> okU sh1 U1 q0).
       { intros q0 Hq0 Hne. destruct (Hin1 q0 Hq0) as [Hq0' Hnn]. unfold okU. rewrite Hsl.
         apply Z.eqb_neq in Hne. rewrite Z.eqb_sym in Hne. rewrite Hne, (HU1 _ Hnn). apply HU; assumption. }
-      assert (HUNa : forall q0, In q0 sh1 -> q_name q0 <> p -> okUN sh1 U1 q0).
+      assert (HUNa : forall q0, In q0 sh1 -> q_name q0 <> par -> okUN sh1 U1 q0).
       { intros q0 Hq0 Hne. destruct (Hin1 q0 Hq0) as [Hq0' Hnn]. unfold okUN. rewrite Hsn.
         apply Z.eqb_neq in Hne. rewrite Z.eqb_sym in Hne. rewrite Hne, (HU1 _ Hnn). apply HUN; assumption. }
-      destruct (Z.eq_dec p 0) as [Hp0|Hp0].
+      destruct (Z.eq_dec par 0) as [Hp0|Hp0].
       - assert (E : U2 = U1) by (unfold U2; rewrite Hp0; apply cwalk_used_root; exact Hnz1).
         rewrite E. refine (conj Hpos1 (conj _ (conj _ _))).
-        + intros q0 Hq0. assert (q_name q0 <> p) by (rewrite Hp0; apply Hnz1; exact Hq0). auto.
+        + intros q0 Hq0. assert (q_name q0 <> par) by (rewrite Hp0; apply Hnz1; exact Hq0). auto.
         + intros m Hm. rewrite (HU1 _ Hm). auto.
         + intros lp _ m Hm _. apply HU1. exact Hm.
       - destruct (detach_parent_find Hp0) as (qp & Hfp & Hfp1 & Hpn).
         destruct detach_parent_chain as (lp & Hrp & Hnlp & Hrp1).
         assert (Hqpin : In qp sh) by (eapply find_in; eauto).
-        assert (Hqpn : q_name qp = p) by (eapply find_name; eauto).
+        assert (Hqpn : q_name qp = par) by (eapply find_name; eauto).
         pose proof (HU qp Hqpin ltac:(rewrite Hqpn; exact Hpn)) as HUp. unfold okU in HUp. rewrite Hqpn in HUp.
         pose proof (HUN qp Hqpin ltac:(rewrite Hqpn; exact Hpn)) as HUNp. unfold okUN in HUNp. rewrite Hqpn in HUNp.
-        pose proof (Hsl p) as Hslp. rewrite Z.eqb_refl in Hslp.
-        pose proof (Hsn p) as Hsnp. rewrite Z.eqb_refl in Hsnp.
-        assert (HS1l : vnonneg (sumc sh1 (usedU U1) p)) by (apply sumc_nonneg; apply (usedU_nonneg sh1); assumption).
-        assert (HS1n : vnonneg (sumc sh1 (unpU U1) p)) by (apply sumc_nonneg; apply (unpU_nonneg sh1); assumption).
-        assert (Hposp : nonneg_u (U p) = true) by (rewrite <- Hqpn; apply Hpos; exact Hqpin).
+        pose proof (Hsl par) as Hslp. rewrite Z.eqb_refl in Hslp.
+        pose proof (Hsn par) as Hsnp. rewrite Z.eqb_refl in Hsnp.
+        assert (HS1l : vnonneg (sumc sh1 (usedU U1) par)) by (apply sumc_nonneg; apply (usedU_nonneg sh1); assumption).
+        assert (HS1n : vnonneg (sumc sh1 (unpU U1) par)) by (apply sumc_nonneg; apply (unpU_nonneg sh1); assumption).
+        assert (Hposp : nonneg_u (U par) = true) by (rewrite <- Hqpn; apply Hpos; exact Hqpin).
         apply nonneg_u_iff in Hposp. destruct Hposp as (_ & Hps & _ & Hpsn).
-        destruct (cwalk_used_ind sh1 Hnd1 Hnz1 p lp qp U1 d dnp false Hrp1 Hfp1 Hpos1)
+        destruct (cwalk_used_ind sh1 Hnd1 Hnz1 par lp qp U1 d dnp false Hrp1 Hfp1 Hpos1)
           as (H1 & H3 & H4 & H5 & H6 & H7 & H8 & H9).
         { intros q0 Hq0 Hin.
-          assert (q_name q0 <> p).
+          assert (q_name q0 <> par).
           { destruct (reaches_head _ _ _ Hrp1 Hp0) as [t Ht]. subst lp. cbn [tl_ok] in Hin.
             pose proof (reaches_nodup _ _ _ Hrp1) as Hd. inversion Hd; subst. intros E. rewrite E in Hin. contradiction. }
           auto. }
         { rewrite (HU1 _ Hpn), HUp. unfold d. rewrite Hslp in HS1l.
-          revert HS1l Hps. generalize (u_sused (U p)) (sumc sh (usedU U) p) (u_used (U n)). intros. vlia. }
+          revert HS1l Hps. generalize (u_sused (U par)) (sumc sh (usedU U) par) (u_used (U n)). clear. intros. vlia. }
         { rewrite (HU1 _ Hpn), HUNp. unfold dnp. rewrite Hsnp in HS1n.
-          revert HS1n Hpsn. generalize (u_snp (U p)) (sumc sh (unpU U) p) (u_np (U n)). intros. vlia. }
+          revert HS1n Hpsn. generalize (u_snp (U par)) (sumc sh (unpU U) par) (u_np (U n)). clear. intros. vlia. }
         { discriminate. }
         fold U2 in H1, H3, H4, H5, H6, H7, H8, H9.
         refine (conj H1 (conj _ (conj _ _))).
-        + intros q0 Hq0. destruct (Z.eq_dec (q_name q0) p) as [E|E].
+        + intros q0 Hq0. destruct (Z.eq_dec (q_name q0) par) as [E|E].
           * unfold okU, okUN. rewrite E, H5, H6, H7. cbn [u_used u_sused u_np u_snp].
             rewrite (HU1 _ Hpn), Hslp, Hsnp, HUp, HUNp. unfold d, dnp. split.
-            -- generalize (u_sused (U p)) (sumc sh (usedU U) p) (u_used (U n)). intros. vlia.
-            -- generalize (u_snp (U p)) (sumc sh (unpU U) p) (u_np (U n)). intros. vlia.
+            -- generalize (u_sused (U par)) (sumc sh (usedU U) par) (u_used (U n)). clear. intros. vlia.
+            -- generalize (u_snp (U par)) (sumc sh (unpU U) par) (u_np (U n)). clear. intros. vlia.
           * split; [apply H3 | apply H4]; auto.
-        + intros m Hm. destruct (Z.eq_dec m p) as [->|E].
+        + intros m Hm. destruct (Z.eq_dec m par) as [->|E].
           * rewrite H5. cbn [u_sused u_snp]. rewrite (HU1 _ Hpn). auto.
           * destruct (H8 m E) as [E1 E2]. rewrite E1, E2, (HU1 _ Hm). auto.
         + intros lp' Hlp' m Hm Hnin. rewrite (reaches_fun _ _ _ Hlp' _ Hrp) in Hnin.
